@@ -41,6 +41,32 @@ def _is_nolabel(f):
 
 
 # ------------------------------------------------------------------------------------------------
+def _opens_and_verifies(g):
+    """g constructs a file stream from its string parameter (and a mode parameter), passes it to verifyStreamOpened and
+    returns it"""
+    sd, decl = _stream_var(g)
+    if sd is None:
+        return False
+    tt = Terms(g)
+    fname = [('var', p) for ix, p in enumerate(g.params) if 'basic_string' in g.cptypes[ix]]
+    init = tt.t(decl['c'][decl['decls'].index(sd)])
+    if not fname or not any(st == fname[0] for st in subterms(init)):
+        return False
+    modes = [('var', p) for ix, p in enumerate(g.params) if 'Ios_Openmode' in g.cptypes[ix] or 'openmode' in g.cptypes[ix]]
+    if modes and not any(st == modes[0] for st in subterms(init)):
+        return False
+    verify = [n for n in g.nodes if n['k'] == 'CallExpr' and 'callee' in n and
+              g.unit.decl(n['callee'])['tname'] == IO + 'verifyStreamOpened' and tt.t(n['args'][0]) == ('var', sd)]
+    rets = [n for n in g.nodes if n['k'] == 'ReturnStmt']
+    if len(verify) != 1 or not rets:
+        return False
+    for r in rets:
+        rt = tt.t(g.children(r['i'])[0]) if g.children(r['i']) else ('none',)
+        if not any(st == ('var', sd) for st in subterms(rt)) or not g.node_dominates(verify[0]['i'], r['i']):
+            return False
+    return True
+
+
 def rule_open(m):
     res = RuleResult('F-IO.OPEN', 'every IO routine constructs its stream from the caller\'s file name, calls '
                                   'verifyStreamOpened before any other use of the stream, binary routines open with '
@@ -89,7 +115,21 @@ def rule_open(m):
                 why = why or 'the stream of a binary routine is not opened with std::ios::binary'
             verify = [n for n in f.nodes if n['k'] == 'CallExpr' and 'callee' in n and
                       f.unit.decl(n['callee'])['tname'] == IO + 'verifyStreamOpened']
-            if len(verify) != 1 or tt.t(verify[0]['args'][0]) != ('var', sd):
+            # the stream may come from an opening helper that constructs it from (file name, mode) and verifies it itself
+            opener = None
+            core = init
+            while core[0] in ('ctor', 'cast') and core[2] and (core[0] == 'cast' or len(core[2]) == 1):
+                core = core[2][0] if core[0] == 'ctor' else core[2]
+            if core[0] == 'call' and core[1].startswith(IO):
+                for n in f.nodes:
+                    if n['k'] == 'CallExpr' and 'callee' in n and f.unit.decl(n['callee'])['tname'] == core[1] and \
+                            n['i'] in f.descendants(decl['i']):
+                        g = f.unit.function_for_decl(n['callee'])
+                        if g is not None and _opens_and_verifies(g):
+                            opener = g
+            if opener is not None and not verify:
+                pass
+            elif len(verify) != 1 or tt.t(verify[0]['args'][0]) != ('var', sd):
                 why = why or 'verifyStreamOpened(stream, fileName) is not called'
             else:
                 for n in f.nodes:
@@ -163,20 +203,14 @@ def rule_checked_read(m):
                 pos = f.cfg_pos(u)
                 ok = False
                 if pos is not None:
+                    from .rules_pair import true_atoms
                     for (bb, ix) in f.dominating_edges(pos[0]):
                         a = f.branch_atom(bb)
-                        if a is None or ix != 0:
+                        if a is None:
                             continue
-                        t = tt.t(a)
-                        # the atom is (a conversion to bool of) the read call itself, possibly inside a conjunction
-                        stack = [t]
-                        while stack:
-                            x = stack.pop()
-                            while x[0] in ('conv', 'cast'):
-                                x = x[2]
-                            if x[0] == 'bin' and x[1] == '&&':
-                                stack.extend([x[2], x[3]])
-                                continue
+                        # an atom true on this edge is (a conversion to bool of) the read call itself: the true edge of
+                        # `read && ...`, or the false edge of `!read` (guard clause with break / return)
+                        for x in true_atoms(tt.t(a), ix == 0):
                             if x == tt.t(call) or strip_conv_call(x) == tt.t(call):
                                 ok = True
                 vname = f.unit.decl(var)['name']
@@ -246,7 +280,26 @@ def rule_wrap(m):
                 if n['k'] != 'CXXMemberCallExpr' or 'callee' not in n or f.unit.decl(n['callee'])['name'] != 'resize':
                     continue
                 for a in n['args'][:1]:
-                    for dn in f.descendants(a):
+                    # the size expression, seen through single-definition locals (`const size_t newSize = ...`)
+                    todo_nodes = list(f.descendants(a))
+                    seen_nodes = set(todo_nodes)
+                    depth = 0
+                    frontier = todo_nodes
+                    while frontier and depth < 3:
+                        nxt = []
+                        for dn in frontier:
+                            x = f.nodes[dn]
+                            if x['k'] == 'DeclRefExpr' and f.unit.decl(x['d'])['dk'] == 'Var':
+                                defs = var_defs(f, x['d'])
+                                if len(defs) == 1 and defs[0][1] >= 0:
+                                    for d2 in f.descendants(defs[0][1]):
+                                        if d2 not in seen_nodes:
+                                            seen_nodes.add(d2)
+                                            nxt.append(d2)
+                        todo_nodes.extend(nxt)
+                        frontier = nxt
+                        depth += 1
+                    for dn in todo_nodes:
                         x = f.nodes[dn]
                         if x['k'] == 'BinaryOperator' and x['op'] == '+':
                             ops = [tt.t(c) for c in x['c']]
@@ -278,11 +331,17 @@ def rule_sign(m):
         for st in subterms(tt.t(calls[0]['args'][2])):
             if st[0] == 'lambda':
                 lam = f.unit.function_for_decl(st[1])
+            if st[0] == 'fn' and st[1].startswith(NS):
+                cands = [g for g in m.by_tname.get(st[1], []) if g.unit is f.unit] or m.by_tname.get(st[1], [])
+                if cands:
+                    lam = cands[0]
         res.sites += 1
         if lam is None:
-            res.broken('F-IO.SIGN: the index parser passed by %s is not a lambda' % disp)
+            res.broken('F-IO.SIGN: the index parser passed by %s is not a lambda or a library function' % disp)
             continue
         ltt = Terms(lam)
+        from .rules_pair import Ctx as _PCtx3
+        _pc3 = _PCtx3(m, lam)
         parses = [n for n in lam.nodes if n['k'] == 'CallExpr' and 'callee' in n and
                   lam.unit.decl(n['callee'])['tname'] in ('std::stoi', 'std::stol', 'std::stoll', 'std::stoul', 'std::stoull',
                                                           'std::atoi', 'std::atol', 'std::strtol', 'std::strtoul')]
@@ -303,7 +362,7 @@ def rule_sign(m):
                     pos = lam.cfg_pos(r['i'])
                     for (bb, ix) in (lam.dominating_edges(pos[0]) if pos else []):
                         a = lam.branch_atom(bb)
-                        t = ltt.t(a) if a is not None else None
+                        t = _pc3.unconst(ltt.t(a)) if a is not None else None
                         if t is None:
                             continue
                         for (at, pol) in _implied(t, ix == 0):
@@ -394,19 +453,28 @@ def rule_grow(m, which='both'):
                     elif pv:
                         why = pv
             else:
-                ga, va = strip_cast(tt.t(gr[0]['args'][0])), strip_cast(tt.t(vr[0]['args'][0]))
-                idx = [strip_cast(tt.t(s['args'][1])) for s in subs]
-                aa = [strip_cast(tt.t(a)) for a in adds[0]['args'][:2]]
+                from .rules_pair import Ctx as _PCtx
+                _pc = _PCtx(m, f)
+                ga, va = strip_cast(_pc.unconst(tt.t(gr[0]['args'][0]))), strip_cast(_pc.unconst(tt.t(vr[0]['args'][0])))
+                idx = [strip_cast(_pc.unconst(tt.t(s['args'][1]))) for s in subs]
+                aa = [strip_cast(_pc.unconst(tt.t(a))) for a in adds[0]['args'][:2]]
                 if ga != va or ga[0] != 'bin' or ga[1] != '+' or strip_cast(ga[3]) != ('int', 1):
                     why = 'graph and name table are not resized to the same `largest + 1`'
                 else:
                     L = strip_cast(ga[2])
                     ldef = None
+                    if L[0] == 'call' and L[1] == 'std::max':
+                        ldef = L
+                        defs_l = [('var', d) for nn in f.nodes if nn['k'] == 'DeclStmt' for ix2, d in enumerate(nn['decls'])
+                                  if ix2 < len(nn['c']) and nn['c'][ix2] >= 0 and strip_cast(_pc.unconst(tt.t(nn['c'][ix2]))) == L]
+                        Lvar = defs_l[0] if defs_l else None
                     if L[0] == 'var':
                         defs = var_defs(f, L[1])
                         if len(defs) == 1 and defs[0][1] >= 0:
                             ldef = tt.t(defs[0][1])
-                    if not (ldef and ldef[0] == 'call' and ldef[1] == 'std::max' and set(ldef[2]) == set(aa)):
+                    if ldef is not None:
+                        ldef = _pc.unconst(ldef)
+                    if not (ldef and ldef[0] == 'call' and ldef[1] == 'std::max' and {strip_cast(x) for x in ldef[2]} == set(aa)):
                         why = 'the size is not derived from max(source index, destination index) of the same line'
                     elif set(idx) != set(aa):
                         why = 'the name-table subscripts are not the two indices that are inserted'
@@ -416,8 +484,8 @@ def rule_grow(m, which='both'):
                         okg = False
                         for dep in reg:
                             t = tt.t(f.branch_atom(dep[0]))
-                            if t[0] == 'bin' and t[1] == '>=' and strip_cast(t[2]) == L and t[3][0] == 'mcall' and \
-                                    t[3][1].endswith('::getSize') and t[3][2] == ('var', G) and dep[1] == 0:
+                            if t[0] == 'bin' and t[1] == '>=' and strip_cast(_pc.unconst(t[2])) in (L, strip_cast(_pc.unconst(L))) and \
+                                    t[3][0] == 'mcall' and t[3][1].endswith('::getSize') and t[3][2] == ('var', G) and dep[1] == 0:
                                 okg = True
                         if not okg or f.region(gr[0]['i']) != f.region(vr[0]['i']):
                             why = 'the two resizes are not guarded together by `largest >= graph.getSize()`'
@@ -944,12 +1012,33 @@ def rule_schema_text(m):
         why = None
         # comment test: line[0] == '#'  -> continue
         cm = None
+        from .rules_pair import Ctx as _PCtx2
+        from .rules_val import _conjuncts as _cj
+        _pc2 = _PCtx2(m, f)
         for n in f.nodes:
             if n['k'] == 'IfStmt':
-                t = tt.t(n['cond'])
-                if t[0] == 'bin' and t[1] == '==' and strip_cast(t[2])[0] == 'idx' and strip_cast(strip_cast(t[2])[2]) == ('int', 0) \
-                        and strip_cast(t[3])[0] == 'int':
-                    cm = chr(strip_cast(t[3])[1])
+                t = _pc2.unconst(tt.t(n['cond']))
+                hit = None
+                rest = []
+                for c in _cj(strip_conv_call(t)):
+                    c = strip_conv_call(c)
+                    l = strip_cast(c[2]) if c[0] == 'bin' else None
+                    first_char = l is not None and ((l[0] == 'idx' and strip_cast(l[2]) == ('int', 0)) or
+                                                    (l[0] == 'mcall' and l[1].endswith('::front') and not l[3]))
+                    if c[0] == 'bin' and c[1] == '==' and first_char and strip_cast(c[3])[0] == 'int':
+                        hit = (c, l[1] if l[0] == 'idx' else l[2])
+                    else:
+                        rest.append(c)
+                if hit is None:
+                    continue
+                line = hit[1]
+                # the other conjuncts may only say that the line is not empty
+                def _nonempty(c):
+                    return (c[0] == 'un' and c[1] == '!' and c[3][0] == 'mcall' and c[3][1].endswith('::empty') and c[3][2] == line) or \
+                        (c[0] == 'bin' and c[1] in ('!=', '>') and c[2][0] == 'mcall' and c[2][1].endswith(('::size', '::length')) and
+                         c[2][2] == line and strip_cast(c[3]) == ('int', 0))
+                if all(_nonempty(c) for c in rest):
+                    cm = chr(strip_cast(hit[0][3])[1])
                     then = f.descendants(n['then'])
                     if not any(f.nodes[x]['k'] == 'ContinueStmt' for x in then):
                         why = 'a comment line is not skipped'
@@ -1294,6 +1383,20 @@ def rule_tokeniser_access(m):
                     res.ok(None, fn=f.display())
                 if cd.get('record') == 'std::basic_string' and cd['name'] in ('front', 'back', 'pop_back', 'erase'):
                     res.sites += 1
+                    # fine where the string is known to be non-empty: !s.empty() / s.size() != 0 on a controlling edge
+                    from .rules_pair import region_atoms
+                    obj = tt.t(n.get('obj', -1))
+                    nonempty = False
+                    for at in region_atoms(f, tt, n['i']):
+                        if at[0] == 'un' and at[1] == '!' and at[3][0] == 'mcall' and at[3][1].endswith('::empty') and at[3][2] == obj:
+                            nonempty = True
+                        if at[0] == 'bin' and at[1] in ('!=', '>') and at[2][0] == 'mcall' and at[2][1].endswith(('::size', '::length')) and \
+                                at[2][2] == obj and strip_cast(at[3]) == ('int', 0):
+                            nonempty = True
+                    if nonempty and cd['name'] in ('front', 'back'):
+                        res.ok(dict(function=f.display(), access=f.expr_text(n['i']), guard='non-empty') if len(res.samples) < 5 else None,
+                               fn=f.display())
+                        continue
                     res.fail(Finding('F-IO.TOK', f.display(), 'unchecked string access ' + cd['name'], f.nloc(n['i']),
                                      'std::string::%s has a non-empty precondition that a blank line violates' % cd['name']))
     res.require_sites(5, 'string accesses')
